@@ -319,14 +319,17 @@ fn derive_copy_shape(def: &CopyDef, symbol_table: &mut BTreeMap<Rc<str>, Shape>)
                 .fields
                 .iter()
                 .map(|(tok, _constraint, expr)| {
-                    (tok.fragment.clone(), expr.derive_shape(symbol_table))
+                    (
+                        tok.fragment.clone(),
+                        (expr.derive_shape(symbol_table), expr.pos().clone()),
+                    )
                 })
-                .collect::<BTreeMap<Rc<str>, Shape>>();
+                .collect::<BTreeMap<Rc<str>, (Shape, Position)>>();
             // 1. Do our copyable fields have the right names and shapes based on mdef.items.
             for (sym, shape) in mdef.items.iter() {
-                if let Some(s) = arg_fields.get(&sym.val) {
+                if let Some((s, given_at)) = arg_fields.get(&sym.val) {
                     if let Shape::TypeErr(pos, msg) = shape.narrow(s, symbol_table) {
-                        return Shape::TypeErr(pos, msg);
+                        return Shape::TypeErr(mismatch_pos(s, pos, given_at), msg);
                     }
                 }
             }
@@ -355,6 +358,17 @@ fn derive_copy_shape(def: &CopyDef, symbol_table: &mut BTreeMap<Rc<str>, Shape>)
             );
             Shape::Tuple(PositionedItem::new(base_fields, def.pos.clone()))
         }
+    }
+}
+
+/// Where to report a value that does not fit the parameter it is given for.
+/// The shape of a name or a selector carries the position its value was
+/// defined at, in some earlier statement; the fault is where it is passed.
+/// An error that was already inside the value keeps its own position.
+fn mismatch_pos(given: &Shape, narrowed_at: Position, given_at: &Position) -> Position {
+    match given {
+        Shape::TypeErr(_, _) => narrowed_at,
+        _ => given_at.clone(),
     }
 }
 
@@ -426,7 +440,7 @@ fn derive_call_shape(def: &CallDef, symbol_table: &mut BTreeMap<Rc<str>, Shape>)
                     if let Shape::TypeErr(pos, msg) = bind_arg_holes(declared_shape, &unknown)
                         .narrow(&actual_shape, symbol_table)
                     {
-                        return Shape::TypeErr(pos, msg);
+                        return Shape::TypeErr(mismatch_pos(&actual_shape, pos, arg_expr.pos()), msg);
                     }
                 }
                 actuals.insert(arg_name.clone(), actual_shape);
